@@ -126,7 +126,8 @@ def _case(draw):
 def _explicit_case(draw):
     """API route: Species objects that carry their *own* binding energy / yield (property setters) are handed to Reaction."""
     model = draw(st.sampled_from(["hh93", "rr07x"]))
-    ices = draw(st.lists(st.sampled_from(ICE), min_size=1, max_size=3, unique=True))
+    # (the clause compares with the table values: ices the bundled table knows)
+    ices = draw(st.lists(st.sampled_from([x for x in ICE if x not in ("D", "HD")]), min_size=1, max_size=3, unique=True))
     # (the other desorption processes need symbols that only the Leeds / UCLCHEM reaction classes register: not reachable through the API)
     types = {"hh93": [201], "rr07x": [201]}[model]
     reacs = []
